@@ -9,6 +9,9 @@ register(Contract(
     qual=BB + ':BasicBlock.jump_targets',
     params={'self': 'block'}, returns='list[name]', pure=True, is_property=True,
     locals={'acc': 'list[name]'},
+    # sub/sup alternate between the two sequences (matching loop): proved of the body and checked at run time, but not
+    # offered to callers, which only ever need `len` and `nobe`
+    axiom_clauses=['len', 'nobe'],
     ensures={
         'sub': 'all(x in self._jump_targets and x not in self.backedges for x in result)',
         'sup': 'all(x in result for x in self._jump_targets if x not in self.backedges)',
